@@ -2,6 +2,7 @@ package analyzer
 
 import (
 	"fmt"
+	"sort"
 	"strings"
 
 	"github.com/juev/hledger-lsp/internal/ast"
@@ -487,8 +488,16 @@ func (a *Analyzer) createBalanceDiagnostic(tx *ast.Transaction, br *BalanceResul
 		}
 	}
 
+	// Sort commodities so the message does not depend on map iteration order.
+	commodities := make([]string, 0, len(br.Differences))
+	for commodity := range br.Differences {
+		commodities = append(commodities, commodity)
+	}
+	sort.Strings(commodities)
+
 	var msg string
-	for commodity, diff := range br.Differences {
+	for _, commodity := range commodities {
+		diff := br.Differences[commodity]
 		if msg != "" {
 			msg += "; "
 		}
